@@ -990,4 +990,235 @@ theorem privInv_step (s : State) (l : Label) (s' : State) (h : PrivInv s) (hs : 
     · intro u tx' m o hu hc; exact ⟨tx', hu, hc, rfl⟩
     · intro u tx' hu; exact Or.inr ⟨tx', hu, Or.inl rfl, rfl, fun i hi => Or.inl hi, rfl, rfl, rfl⟩
 
+/-! ### one reader running alone on a coherent cache -/
+
+/-- labels of a search of transaction `t` -/
+def Label.soloR (t : TxId) : Label → Bool
+  | .access u _ => u == t
+  | .leave u _ => u == t
+  | .read u _ _ => u == t
+  | .backfill u _ => u == t
+  | .closeTx u _ => u == t
+  | _ => false
+
+/-- what a sequence of reads returns when every read returns the content of disk `d` -/
+def pushReads (d : Disk) : List Label → List (Name × Item × Option Val) → List (Name × Item × Option Val)
+  | [], acc => acc
+  | .read _ n i :: rest, acc => pushReads d rest ((n, i, d.idx n i) :: acc)
+  | _ :: rest, acc => pushReads d rest acc
+
+structure Solo (d : Disk) (t : TxId) (acc : List (Name × Item × Option Val)) (s : State) : Prop where
+  tx : ∃ tx, s.txs t = some tx ∧ tx.isWrite = false ∧ tx.view = d ∧ tx.obs = acc ∧ tx.u1 = false ∧ tx.u3 = false ∧
+    ∀ n o, tx.cur n = some o → ∃ ob, s.objs o = some ob ∧ ob.name = n ∧ ob.owner = t ∧ Agree ob n d
+  map : ∀ n o, s.map n = some o → ∃ ob, s.objs o = some ob ∧ ob.name = n ∧ ob.writer = none ∧ Agree ob n d
+  bound : ∀ o ob, s.objs o = some ob → o < s.nextObj
+
+theorem cacheFill_name (ob : Obj) (i : Item) (r : Option Val) (k : Nat) : (cacheFill ob i r k).name = ob.name := by
+  unfold cacheFill; split <;> rfl
+theorem cacheFill_owner (ob : Obj) (i : Item) (r : Option Val) (k : Nat) : (cacheFill ob i r k).owner = ob.owner := by
+  unfold cacheFill; split <;> rfl
+theorem cacheFill_writer (ob : Obj) (i : Item) (r : Option Val) (k : Nat) : (cacheFill ob i r k).writer = ob.writer := by
+  unfold cacheFill; split <;> rfl
+
+theorem bound_upd {objs : ObjId → Option Obj} {nx : Nat} (hb : ∀ o ob, objs o = some ob → o < nx) {o : ObjId} {ob1 : Obj}
+    {nx' : Nat} (ho : o < nx') (hle : nx ≤ nx') : ∀ o' ob', upd objs o (some ob1) o' = some ob' → o' < nx' := by
+  intro o' ob' h
+  rcases upd_some_cases h with ⟨rfl, _⟩ | ⟨_, hold⟩
+  · exact ho
+  · exact Nat.lt_of_lt_of_le (hb o' ob' hold) hle
+
+/-- the manager's object for `n`, with what is known about it -/
+theorem solo_map_obj {d t acc s} (h : Solo d t acc s) {n o ob} (hm : s.map n = some o) (ho : s.objs o = some ob) :
+    ob.name = n ∧ ob.writer = none ∧ Agree ob n d := by
+  obtain ⟨ob', ho', h1⟩ := h.map n o hm
+  rw [ho] at ho'; simp only [Option.some.injEq] at ho'; subst ho'; exact h1
+
+theorem solo_step {d : Disk} {t : TxId} {acc} {s s' : State} {l : Label} (h : Solo d t acc s) (hl : l.soloR t = true)
+    (hs : step s l = some s') : Solo d t (pushReads d [l] acc) s' := by
+  have hmapo := fun {n o ob} => solo_map_obj h (n := n) (o := o) (ob := ob)
+  obtain ⟨⟨tx0, ht0, hw0, hv0, hobs0, hu10, hu30, hcur0⟩, hmap, hbound⟩ := h
+  cases l with
+  | beginR u => simp [Label.soloR] at hl
+  | beginW u => simp [Label.soloR] at hl
+  | wr u op => simp [Label.soloR] at hl
+  | release u n => simp [Label.soloR] at hl
+  | evict n => simp [Label.soloR] at hl
+  | access u n =>
+    simp only [Label.soloR, beq_iff_eq] at hl; subst hl
+    obtain ⟨tx, o, ob', nx, mp, ht, hop, hc, hcase, rfl⟩ := stepAccess_some hs
+    rw [ht0] at ht; simp only [Option.some.injEq] at ht; subst ht
+    simp only [pushReads, withAccess]
+    have hob' : ob'.name = n ∧ ob'.owner = u ∧ ob'.writer = none ∧ Agree ob' n d := by
+      cases hcase with
+      | fresh inMap _ _ =>
+        rw [if_neg (by simp [hw0])]
+        exact ⟨rfl, rfl, rfl, agree_fresh _ _ _ _ _ _ _⟩
+      | existing o ob hsh hm ho hwn hr =>
+        have := hmapo hm ho
+        unfold takeShared
+        rw [if_neg (by simp [hw0])]
+        exact ⟨this.1, rfl, hwn, agree_congr this.2.2 rfl rfl⟩
+    -- an object of another index is not the one handed out
+    have hother : ∀ m o1 ob1, m ≠ n → s.objs o1 = some ob1 → ob1.name = m → o1 ≠ o := by
+      intro m o1 ob1 hmn hob1 hn1 e
+      subst e
+      cases hcase with
+      | fresh inMap _ _ => exact absurd (hbound _ _ hob1) (Nat.lt_irrefl _)
+      | existing o2 ob2 hsh hm ho hwn hr =>
+        rw [ho] at hob1; simp only [Option.some.injEq] at hob1; subst hob1
+        exact hmn (hn1.symm.trans (hmapo hm ho).1)
+    have hnx : o < nx ∧ s.nextObj ≤ nx := by
+      cases hcase with
+      | fresh inMap _ _ => exact ⟨Nat.lt_succ_self _, Nat.le_succ _⟩
+      | existing o2 ob2 hsh hm ho hwn hr => exact ⟨hbound _ _ ho, Nat.le_refl _⟩
+    refine ⟨?_, ?_, bound_upd hbound hnx.1 hnx.2⟩
+    · refine ⟨_, upd_same _ _ _, hw0, hv0, hobs0, hu10, hu30, ?_⟩
+      intro m o' hcm
+      dsimp only at hcm ⊢
+      rcases upd_opt_cases hcm with ⟨rfl, hx⟩ | ⟨hmn, hold⟩
+      · simp only [Option.some.injEq] at hx; subst hx
+        exact ⟨ob', upd_same _ _ _, hob'.1, hob'.2.1, hob'.2.2.2⟩
+      · obtain ⟨ob1, hob1, hn1, how1, hag1⟩ := hcur0 m o' hold
+        exact ⟨ob1, by rw [upd_other _ _ _ _ (hother m o' ob1 hmn hob1 hn1)]; exact hob1, hn1, how1, hag1⟩
+    · intro m o' hm
+      dsimp only at hm ⊢
+      -- either the entry is the one just installed, or it is an old entry
+      have hcases : (m = n ∧ o' = o) ∨ s.map m = some o' := by
+        cases hcase with
+        | fresh inMap _ _ =>
+          cases inMap with
+          | false => exact Or.inr (by simpa using hm)
+          | true =>
+            simp only [if_true] at hm
+            rcases upd_opt_cases hm with ⟨rfl, hx⟩ | ⟨_, hold⟩
+            · simp only [Option.some.injEq] at hx; exact Or.inl ⟨rfl, hx.symm⟩
+            · exact Or.inr hold
+        | existing o2 ob2 hsh hm2 ho hwn hr => exact Or.inr hm
+      rcases hcases with ⟨rfl, rfl⟩ | hold
+      · exact ⟨ob', upd_same _ _ _, hob'.1, hob'.2.2.1, hob'.2.2.2⟩
+      · obtain ⟨ob1, hob1, hn1, hw1, hag1⟩ := hmap m o' hold
+        by_cases emn : m = n
+        · subst emn
+          by_cases e : o' = o
+          · subst e; exact ⟨ob', upd_same _ _ _, hob'.1, hob'.2.2.1, hob'.2.2.2⟩
+          · exact ⟨ob1, by rw [upd_other _ _ _ _ e]; exact hob1, hn1, hw1, hag1⟩
+        · exact ⟨ob1, by rw [upd_other _ _ _ _ (hother m o' ob1 emn hob1 hn1)]; exact hob1, hn1, hw1, hag1⟩
+  | leave u n =>
+    simp only [Label.soloR, beq_iff_eq] at hl; subst hl
+    obtain ⟨tx, o, ob, ht, hw, hc, ho, rfl⟩ := stepLeave_some hs
+    rw [ht0] at ht; simp only [Option.some.injEq] at ht; subst ht
+    simp only [pushReads]
+    refine ⟨?_, ?_, bound_upd hbound (hbound _ _ ho) (Nat.le_refl _)⟩
+    · refine ⟨_, upd_same _ _ _, hw0, hv0, hobs0, hu10, hu30, ?_⟩
+      intro m o' hcm
+      dsimp only at hcm ⊢
+      have hold : tx0.cur m = some o' := by
+        rcases upd_opt_cases hcm with ⟨_, hx⟩ | ⟨_, hold⟩
+        · simp at hx
+        · exact hold
+      obtain ⟨ob1, hob1, hn1, how1, hag1⟩ := hcur0 m o' hold
+      by_cases e : o' = o
+      · subst e
+        rw [ho] at hob1; simp only [Option.some.injEq] at hob1; subst hob1
+        exact ⟨_, upd_same _ _ _, hn1, how1, agree_congr hag1 rfl rfl⟩
+      · exact ⟨ob1, by rw [upd_other _ _ _ _ e]; exact hob1, hn1, how1, hag1⟩
+    · intro m o' hm
+      dsimp only at hm ⊢
+      obtain ⟨ob1, hob1, hn1, hw1, hag1⟩ := hmap m o' hm
+      by_cases e : o' = o
+      · subst e
+        rw [ho] at hob1; simp only [Option.some.injEq] at hob1; subst hob1
+        exact ⟨_, upd_same _ _ _, hn1, hw1, agree_congr hag1 rfl rfl⟩
+      · exact ⟨ob1, by rw [upd_other _ _ _ _ e]; exact hob1, hn1, hw1, hag1⟩
+  | read u n i =>
+    simp only [Label.soloR, beq_iff_eq] at hl; subst hl
+    obtain ⟨tx, o, ob, ht, hop, hc, ho, hcase⟩ := stepRead_some hs
+    rw [ht0] at ht; simp only [Option.some.injEq] at ht; subst ht
+    obtain ⟨ob0, hob0, hname, hown, hag⟩ := hcur0 n o hc
+    rw [ho] at hob0; simp only [Option.some.injEq] at hob0; subst hob0
+    simp only [pushReads]
+    cases hcase with
+    | hit v k hi =>
+      have hv : tx0.view.idx n i = some v := by rw [hv0]; exact hag i v k hi
+      rw [← hv, observe_own]
+      refine ⟨?_, hmap, hbound⟩
+      refine ⟨_, upd_same _ _ _, hw0, hv0, by dsimp only; rw [hobs0, hv0], hu10, by dsimp only; simp [hu30], ?_⟩
+      intro m o' hcm; exact hcur0 m o' hcm
+    | dead otx hi hoo hcl =>
+      rw [hown, ht0] at hoo
+      simp only [Option.some.injEq] at hoo
+      subst hoo
+      rw [hop] at hcl; simp at hcl
+    | through otx hi hoo hcl =>
+      rw [hown, ht0] at hoo
+      simp only [Option.some.injEq] at hoo
+      subst hoo
+      rw [observe_own]
+      have hfill : Agree (cacheFill ob i (tx0.view.idx n i) tx0.snap) n d := by
+        rw [hv0]; exact agree_cacheFill hag i _
+      refine ⟨?_, ?_, bound_upd hbound (hbound _ _ ho) (Nat.le_refl _)⟩
+      · refine ⟨_, upd_same _ _ _, hw0, hv0, by dsimp only; rw [hobs0, hv0], hu10, by dsimp only; simp [hu30], ?_⟩
+        intro m o' hcm
+        dsimp only at hcm ⊢
+        obtain ⟨ob1, hob1, hn1, how1, hag1⟩ := hcur0 m o' hcm
+        by_cases e : o' = o
+        · subst e
+          rw [ho] at hob1; simp only [Option.some.injEq] at hob1; subst hob1
+          have emn : m = n := hn1.symm.trans hname
+          subst emn
+          exact ⟨_, upd_same _ _ _, (cacheFill_name _ _ _ _).trans hn1, (cacheFill_owner _ _ _ _).trans how1, hfill⟩
+        · exact ⟨ob1, by rw [upd_other _ _ _ _ e]; exact hob1, hn1, how1, hag1⟩
+      · intro m o' hm
+        dsimp only at hm ⊢
+        obtain ⟨ob1, hob1, hn1, hw1, hag1⟩ := hmap m o' hm
+        by_cases e : o' = o
+        · subst e
+          rw [ho] at hob1; simp only [Option.some.injEq] at hob1; subst hob1
+          have emn : m = n := hn1.symm.trans hname
+          subst emn
+          exact ⟨_, upd_same _ _ _, (cacheFill_name _ _ _ _).trans hn1, (cacheFill_writer _ _ _ _).trans hw1, hfill⟩
+        · exact ⟨ob1, by rw [upd_other _ _ _ _ e]; exact hob1, hn1, hw1, hag1⟩
+  | backfill u i =>
+    simp only [Label.soloR, beq_iff_eq] at hl; subst hl
+    obtain ⟨tx, ht, hw, hop, hseen, hcase⟩ := stepBackfill_some hs
+    rw [ht0] at ht; simp only [Option.some.injEq] at ht; subst ht
+    simp only [pushReads]
+    rcases hcase with ⟨_, rfl⟩ | ⟨hnone, rfl⟩
+    · exact ⟨⟨tx0, ht0, hw0, hv0, hobs0, hu10, hu30, hcur0⟩, hmap, hbound⟩
+    · simp only [setBad]
+      exact ⟨⟨_, upd_same _ _ _, hw0, hv0, hobs0, hu10, hu30, hcur0⟩, hmap, hbound⟩
+  | closeTx u ok =>
+    simp only [Label.soloR, beq_iff_eq] at hl; subst hl
+    obtain ⟨tx, ht, hop, hcase⟩ := stepClose_some hs
+    rw [ht0] at ht; simp only [Option.some.injEq] at ht; subst ht
+    simp only [pushReads]
+    cases hcase with
+    | reader hw hu => exact ⟨⟨_, upd_same _ _ _, hw0, hv0, hobs0, hu10, hu30, hcur0⟩, hmap, hbound⟩
+    | commit hw => rw [hw0] at hw; simp at hw
+    | rollback hw => rw [hw0] at hw; simp at hw
+
+theorem pushReads_append (d : Disk) (a b : List Label) (acc) : pushReads d (a ++ b) acc = pushReads d b (pushReads d a acc) := by
+  induction a generalizing acc with
+  | nil => rfl
+  | cons l rest ih => cases l <;> simp [pushReads, ih]
+
+theorem solo_run {d : Disk} {t : TxId} : ∀ (sched : List Label) (acc) (s s' : State), Solo d t acc s →
+    (∀ l ∈ sched, Label.soloR t l = true) → run s sched = some s' → Solo d t (pushReads d sched acc) s' := by
+  intro sched
+  induction sched with
+  | nil => intro acc s s' h _ hr; simp [run] at hr; subst hr; exact h
+  | cons l rest ih =>
+    intro acc s s' h hall hr
+    simp only [run] at hr
+    cases hs : step s l with
+    | none => simp [hs] at hr
+    | some s1 =>
+      simp only [hs] at hr
+      have h1 := solo_step h (hall l (by simp)) hs
+      have := ih _ s1 s' h1 (fun l' hl' => hall l' (by simp [hl'])) hr
+      have e : pushReads d (l :: rest) acc = pushReads d rest (pushReads d [l] acc) := by
+        have := pushReads_append d [l] rest acc
+        simpa using this
+      rw [e]; exact this
+
 end Sema.C09
